@@ -1371,3 +1371,54 @@ _add(POOL["tp_mass_coeff_q2_quad"].variant("@sumfact-complex", options={"sum_fac
                                                                         "scalar_type": "complex128"},
                                            tags=("family", "kern")))
 _add(Combined("combo:expr_facet_tri+expr_p1_tri_2pts", ["expr_facet_tri", "expr_p1_tri_2pts"]))
+
+
+# ---- additions after the sixth round of seeded changes ----------------------------------------
+# three expressions, two point arrays, the third expression reusing one of the two array OBJECTS
+def _expr_triple(name, third):
+    return _add(
+        Request(
+            name,
+            "expressions",
+            [
+                _mesh("triangle"),
+                'el = basix.ufl.element("Lagrange", "triangle", 1)',
+                "V = ufl.FunctionSpace(mesh, el)",
+                "f = ufl.Coefficient(V)",
+                "P = np.array([[0.25, 0.25], [0.5, 0.125]], dtype=np.float64)",
+                "Q = np.array([[0.1, 0.7], [0.3, 0.3]], dtype=np.float64)",
+                f"objs = [(f, P), (f * f, Q), (ufl.sin(f), {third})]",
+            ],
+            tags=("family", "points", "identfam"),
+        )
+    )
+
+
+_expr_triple("expr_triple_PQP", "P")
+_expr_triple("expr_triple_PQQ", "Q")
+
+
+# two coefficients of one space in non-interchangeable roles, roles swapped
+def _expr_roles(name, body):
+    return _add(
+        Request(
+            name,
+            "expressions",
+            [
+                _mesh("triangle"),
+                'el = basix.ufl.element("Lagrange", "triangle", 2)',
+                "V = ufl.FunctionSpace(mesh, el)",
+                "f = ufl.Coefficient(V)",
+                "g = ufl.Coefficient(V)",
+                "k = ufl.Constant(mesh)",
+                "m = ufl.Constant(mesh)",
+                "pts = np.array([[0.25, 0.25], [0.5, 0.125]], dtype=np.float64)",
+                f"objs = [({body}, pts)]",
+            ],
+            tags=("family", "exprfam"),
+        )
+    )
+
+
+_expr_roles("expr_roles_fg", "f.dx(0) + g + k * f + m")
+_expr_roles("expr_roles_gf", "g.dx(0) + f + m * g + k")
